@@ -24,6 +24,24 @@ PROPS = {
     },
 }
 
+PROPS["C02"] = {
+    "features": None,
+    "technique": "Lean 4 proof: no model outcome is `panic`/`outOfFuel` (induction on fuel over reader laws); differential run on the malformed stream",
+    "level_text": "Machine-checked proof that, in the model, the value decoder (all 256 tags, all bodies), the blocking parser on every byte string, and both parsers over every scripted source return a value or an error value: every place where the Rust would panic (bytes::Buf reads, slicing, advance) is an explicit `panic` outcome and is proved unreachable, and the loop provably finishes within fuel length+1. The model is tied to the code by running the complete tag x length x fill grid, all short strings, all token sequences up to k, grammar-aware mutations and 1 MiB structural bombs through the real decoder/parsers (blocking and async, each followed by display, re-encoding, traversal, clone, drop; bombs in a child process) and diffing with the model. Partial: stack exhaustion of the recursive Drop/Clone/Display on values nested >= ~16k levels is runtime behaviour the model cannot exhibit; it is observed by the harness and reported as known finding K2.",
+    "level_note": "Trusts the Lean kernel, the translator, the correspondence check; `bytes::Buf` panics-when-short and `from_utf8_lossy` are modelled library behaviour (validated on every run). Stack depth, allocator and wall-clock are observed only.",
+    "design_ref": "DESIGN.md section 9, C02",
+    "trusted_base": COMMON_TB + [
+        "bytes::Buf::get_u8/u16/i32/i8, slicing and advance modelled as 'panic when fewer bytes remain' (Model/Codec.lean)",
+        "String::from_utf8_lossy modelled by Model/Utf8.lean (maximal-subpart replacement)",
+        "std Read::read_exact / futures-util ReadExact modelled by readExactStd / readExactFut (Model/Loop.lean)",
+    ],
+    "assumptions": [
+        "the model's `panic` outcomes are exactly the places where the Rust code can panic (validated by the differential run: the harness catches unwinds per case)",
+        "recursion depth of compiler-generated Drop/Clone and of Display is not modelled (known finding K2)",
+    ],
+    "search_thorough": False,
+}
+
 ALL_IDS = ["C%02d" % i for i in range(1, 21)]
 
 NOT_YET = "not claimed in this revision: the theorem/correspondence pair for this property is not built yet (see DESIGN.md section 13)"
